@@ -10,7 +10,7 @@
    byte-exact generator correspondence and judged on the reference machine. *)
 From Coq Require Import ZArith List String Bool.
 From Gigue Require Import Types Bits Isa Enc GenTables Builder BuilderTies Samplers Generator Machine MachineLemmas
-  SplitProofs FragProofs GenLemmas ImageSem CtorSpec C12Defs C12Proofs GenWF GenWFProps SliceLemmas GenWF2 GenWF3 GenWF2Props Witness.
+  SplitProofs FragProofs GenLemmas ImageSem CtorSpec C12Defs C12Proofs GenWF GenWFProps SliceLemmas GenWF2 GenWF3 GenWF4 GenWF2Props Witness.
 Import ListNotations.
 Open Scope Z_scope.
 
@@ -32,6 +32,19 @@ Proof. exact callee_counts_exact. Qed.
 Theorem C05_call_sites : forall c script img,
   successful c script img -> Forall (sites_ok c (im_methods img)) (im_methods img).
 Proof. exact call_sites_exact. Qed.
+
+(* PROVED: the interpreter loop is  prologue ++ stubs ++ epilogue  where the stubs
+   are one call per top-level element, over a PERMUTATION of the element list
+   (every element called exactly once), each stub being the interpreter call
+   (through the call trampoline when trampolines are enabled) built for the
+   offset from the stub's own address to the element's recorded address, PIC
+   stubs loading a hit case h with 1 <= h <= cases.
+     int_ok c ms es ints := exists pro epi shuffled calls,
+        base_prologue 10 0 true = OK pro /\ base_epilogue 10 0 true = OK epi /\ Permutation es shuffled /\
+        calls_chain c ms (jit_start_al c) shuffled (int_start_al c + zlen pro * 4) calls /\ ints = pro ++ calls ++ epi *)
+Theorem C05_interpreter_calls_each_element_once : forall c script img,
+  successful c script img -> int_ok c (im_methods img) (im_elements img) (im_int_instrs img).
+Proof. exact interpreter_calls_each_element_once. Qed.
 
 Theorem C05_nonvacuous : exists img, successful wcfg_base wscript_base img.
 Proof. exact witness_base. Qed.
@@ -75,6 +88,7 @@ Proof. exact case_cap. Qed.
 Print Assumptions C05_method_count.
 Print Assumptions C05_callee_counts.
 Print Assumptions C05_call_sites.
+Print Assumptions C05_interpreter_calls_each_element_once.
 Print Assumptions C05_nonvacuous.
 Print Assumptions C05_switch_hit_partial.
 Print Assumptions C05_switch_miss_partial.
